@@ -112,7 +112,8 @@ class XPathTransformer(Transformer[str, list[ASTXpathElement | ASTXpathAnywhereE
     def index_spec(self, args: list[str]) -> int:
         if len(args) == 0:
             return -1
-        return int(args[0])
+        # Each digit is a separate token
+        return int("".join(args))
 
     def field_spec(self, args: list[str]) -> str:
         return args[0]
